@@ -341,7 +341,10 @@ func genAggregateSelect(t *rapid.T, c *GenCtx, st *Stmt, o SelOpts) {
 	var groupVals []*Node // group by values usable inside an aggregate field
 	for i := 0; i < ngroup; i++ {
 		var e *Node
-		switch rapid.IntRange(0, 5).Draw(t, "groupForm") {
+		switch rapid.IntRange(0, 6).Draw(t, "groupForm") {
+		case 6:
+			// a Boolean group column (false before true when it is ordered by)
+			e = rapid.SampledFrom([]*Node{Bin(">", Call("strlen", Key()), Int(1)), Call("is_int", Value()), Bin("^=", Key(), Str("a"))}).Draw(t, "groupBool")
 		case 0:
 			e = Key()
 		case 1:
